@@ -52,9 +52,9 @@ MsgOK(m) == /\ m.shape \in {"one"} \cup Malformed
 \* an object that is alive and unrelated to every earlier drop - nothing allows to skip it: it is applied (C08), as exactly
 \* one request (C20: n = requests other than probes), without error.
 PreludeOK(e) ==
-    "prelude" \notin DOMAIN e \/
-    \A i \in 1..Len(e.prelude) : /\ e.prelude[i].ok
-                                 /\ IF Prop = "C08" THEN e.prelude[i].n >= 1 ELSE e.prelude[i].n = 1
+    IF "prelude" \notin DOMAIN e THEN TRUE      \* older replay files
+    ELSE \A i \in 1..Len(e.prelude) : /\ e.prelude[i].ok
+                                      /\ IF Prop = "C08" THEN e.prelude[i].n >= 1 ELSE e.prelude[i].n = 1
 
 TInit == Init /\ tr \in 1..Len(Traces) /\ l = 1
 
